@@ -319,6 +319,51 @@ func c01One(r *core.Run, idx int64, note string, mk func() (val.LibCol, error), 
 			}
 		}
 	}
+	// the other shapes of a result target: a single ResultColumn, typed and inferring (AutoResult),
+	// for a one-column block at the same revision
+	if msg := core.Recover(func() {
+		one := proto.Block{Columns: 1, Rows: rows, Info: proto.BlockInfo{BucketNum: -1}}
+		var b1 proto.Buffer
+		if err := one.EncodeBlock(&b1, rev, input[:1]); err != nil {
+			r.Violation("encode-error:single-column:"+site, err.Error(), cs)
+			return
+		}
+		d2, _ := mk()
+		targets := map[string]proto.Result{"ResultColumn": proto.ResultColumn{Name: "v", Data: d2.Col()}}
+		var autoCol *proto.ColAuto
+		if canAuto := func() (ok bool) {
+			var a proto.ColAuto
+			_ = core.Recover(func() { ok = a.Infer(proto.ColumnType(rb.Cols[0].Type)) == nil })
+			return ok
+		}(); canAuto {
+			rc := proto.AutoResult("v")
+			autoCol, _ = rc.Data.(*proto.ColAuto)
+			targets["AutoResult"] = rc
+		}
+		for name, tg := range targets {
+			_, err, exact := libDecode(b1.Buf, rev, tg)
+			if err != nil || !exact {
+				r.Violation("decode-error:"+name+":"+site, fmt.Sprintf("a one-column block into a single %s at revision %d: err=%v, consumed exactly=%v", name, rev, err, exact), cs)
+				continue
+			}
+			if rows == 0 {
+				continue
+			}
+			var got []ref.Val
+			if name == "ResultColumn" {
+				got = readAll(d2)
+			} else if autoCol != nil {
+				if got, err = val.ReadCol(autoCol, t); err != nil {
+					continue
+				}
+			}
+			if d := diffVals(vals, got); d != "" {
+				r.Violation("roundtrip:"+name+":"+site, fmt.Sprintf("a one-column block decoded into a single %s at revision %d differs: %s", name, rev, d), cs)
+			}
+		}
+	}); msg != "" {
+		r.Violation("decode-panic:single-result-column:"+site, msg, cs)
+	}
 	// automatic inference
 	var auto proto.ColAuto
 	if core.Recover(func() { err = auto.Infer(proto.ColumnType(rb.Cols[0].Type)) }) == "" && err == nil {
